@@ -200,7 +200,7 @@ theorem modeAt_append_lt (w : World) (l : List KeyCache) (c : Nat) (hlt : c < w.
   unfold modeAt
   simp only [List.getD_eq_getElem?_getD, List.getElem?_append_left hlt]
 
-theorem MInv.applyOp {w : World} (hm : MInv w) (hq : QInv w) (op : Op) (hok : opOk w op) (hnb : NoBoundedOp op) :
+theorem MInv.applyOp {w : World} (hm : MInv w) (hq : QInv w) (op : Op) (hok : opOk w op) (hnb : CapsPosOp op) :
     MInv (Env.applyOp w op).2 := by
   rw [applyOp_snd_eq]
   cases op with
@@ -346,7 +346,7 @@ theorem MInv.applyOp {w : World} (hm : MInv w) (hq : QInv w) (op : Op) (hok : op
 theorem MInv.init (t : Int) : MInv (World.init t) :=
   ⟨fun f fac h => by simp [World.init] at h, fun s ss fac h => by simp [World.init] at h⟩
 
-theorem QMInv_runOps {w : World} (hq : QInv w) (hm : MInv w) (ops : List Op) (hv : validFrom w ops) (hnb : NoBounded ops) :
+theorem QMInv_runOps {w : World} (hq : QInv w) (hm : MInv w) (ops : List Op) (hv : validFrom w ops) (hnb : CapsPos ops) :
     QInv (runOps w ops).2 ∧ MInv (runOps w ops).2 := by
   induction ops generalizing w with
   | nil => exact ⟨hq, hm⟩
